@@ -43,7 +43,11 @@ pub open spec fn rng_adv(st: RngSt) -> RngSt { RngSt { key: st.key, ctr: st.ctr 
 pub trait CryptoRngCore {
     spec fn rng_state(&self) -> RngSt;
     spec fn rng_step(st: RngSt) -> RngSt;
+    // RngCore::fill_bytes / next_u64 used directly on the caller's generator: one step of the stream, output an uninterpreted function of the state
+    fn fill_bytes(&mut self, dest: &mut [u8])
+        ensures final(self).rng_state() == Self::rng_step(old(self).rng_state()), final(dest)@.len() == old(dest)@.len(), final(dest)@ == rng_bytes(old(self).rng_state(), old(dest)@.len());
 }
+pub uninterp spec fn rng_bytes(st: RngSt, n: nat) -> Seq<u8>;
 pub open spec fn rng_steps<R: CryptoRngCore>(st: RngSt, n: nat) -> RngSt
     decreases n
 { if n == 0 { st } else { R::rng_step(rng_steps::<R>(st, (n - 1) as nat)) } }
@@ -74,10 +78,14 @@ impl TranscriptRng {
 impl CryptoRngCore for TranscriptRng {
     open spec fn rng_state(&self) -> RngSt { self.st() }
     open spec fn rng_step(st: RngSt) -> RngSt { rng_adv(st) }
+    #[verifier::external_body]
+    fn fill_bytes(&mut self, dest: &mut [u8]) { unimplemented!() }
 }
 // NullRng (src/utils/nullrng.rs): fills with zeros and keeps no state
 pub uninterp spec fn null_rng_state() -> RngSt;
 impl CryptoRngCore for NullRng {
     open spec fn rng_state(&self) -> RngSt { null_rng_state() }
     open spec fn rng_step(st: RngSt) -> RngSt { st }
+    #[verifier::external_body]
+    fn fill_bytes(&mut self, dest: &mut [u8]) { unimplemented!() }
 }
